@@ -88,6 +88,9 @@ func checkVector(mc *modelCase, cfg rwConfig, backend string, caseSeed int64) (f
 	if !res.Intact {
 		fail("stray-write", "bytes outside a caller buffer were modified")
 	}
+	if res.ArgsChanged != "" {
+		fail("arguments-modified", res.ArgsChanged)
+	}
 	// frame: parameters and inputs unchanged
 	k := 0
 	for i := range mc.Params {
